@@ -85,6 +85,12 @@ ALWAYS_PROGRAMS = [
     ([_s('taint', 'top', tgt='K', how='default_capture'), _s('fwd', 'top', 'none', 'own')], [{'tkey': 't', 'same': True}, {'w': 1, 'n': 0, 'names': []}]),
     ([_s('taint', 'top', tgt='A', how='default_capture'), _s('fwd', 'top', 'own', 'none')], [{'tkey': 't', 'same': True}, {'w': 1, 'n': 0, 'names': []}]),
     ([_s('taint', 'top', tgt='K', how='default_capture'), _s('fwd', 'top', 'own', 'own')], [{'tkey': 't', 'same': False}, {'w': 1, 'n': 0, 'names': []}]),
+    # **kwargs handed over BY KEYWORD inside a nested function that runs before the forwarding call
+    ([_s('taint', 'nested_now', tgt='K', how='handover'), _s('fwd', 'top', 'own', 'own')], [{'tkey': 't', 'same': True}, {'w': 1, 'n': 0, 'names': []}]),
+    ([_s('taint', 'nested_now', tgt='K', how='handover_expr'), _s('fwd', 'top', 'none', 'own')], [{'tkey': 't', 'same': True}, {'w': 1, 'n': 0, 'names': []}]),
+    # *args merely READ inside a nested function (a tuple cannot be changed by the code it is handed to): the call still forwards it
+    ([_s('taint', 'nested_now', tgt='A', how='handover'), _s('fwd', 'top', 'own', 'own')], [{'tkey': 't', 'same': False}, {'w': 1, 'n': 0, 'names': []}]),
+    ([_s('taint', 'nested_after', tgt='A', how='handover_expr'), _s('fwd', 'top', 'own', 'none')], [{'tkey': 't', 'same': False}, {'w': 1, 'n': 0, 'names': []}]),
 ]
 
 
